@@ -160,6 +160,8 @@ func cmdRun(args []string) {
 	solver := fs.String("solver", "z3-new", "z3|z3-new|cvc5")
 	replay := fs.Bool("replay", false, "replay candidates natively")
 	prof := fs.String("cpuprofile", "", "write cpu profile")
+	onlyCase := fs.Int("case", -1, "run only this case index of parameterised harnesses")
+	deadline := fs.Int("deadline", 0, "stop exploring after this many seconds")
 	fs.Parse(args)
 	if *prof != "" {
 		f, _ := os.Create(*prof)
@@ -177,6 +179,9 @@ func cmdRun(args []string) {
 	cfg.Trace = *trace
 	cfg.NoMerge = *nomerge
 	cfg.EagerFeas = *eager
+	if *deadline > 0 {
+		cfg.Deadline = time.Now().Add(time.Duration(*deadline) * time.Second)
+	}
 	cfg.NoPrune = *noprune
 	cfg.SolverLog = *slog
 	cfg.SolverName = *solver
@@ -185,6 +190,15 @@ func cmdRun(args []string) {
 	}
 	fns := ld.Harnesses(*prefix)
 	jobs := harnessJobs(fns)
+	if *onlyCase >= 0 {
+		var sel []job
+		for _, j := range jobs {
+			if j.caseIdx == *onlyCase {
+				sel = append(sel, j)
+			}
+		}
+		jobs = sel
+	}
 	if *trace || *slog != "" {
 		*workers = 1
 	}
